@@ -135,6 +135,21 @@ Fixpoint run (kara : Z) (p : pool) (ops : list op) : pool * list event :=
   | o :: r => let '(p1, e1) := step kara p o in let '(p2, e2) := run kara p1 r in (p2, e1 ++ e2)
   end.
 
+(* ---- side conditions of an operation ---- *)
+(* scalar arguments are C unsigned longs (mpir_ui) *)
+Definition op_ok (o : op) : Prop :=
+  match o with
+  | OSetUi _ v | OAddUi _ _ v | OSubUi _ _ v => 0 <= v < 2 ^ 64
+  | _ => True
+  end.
+(* mpz_init / mpz_init2 name a variable slot of the pool *)
+Definition op_inb (n : nat) (o : op) : Prop :=
+  match o with
+  | OInit i | OInit2 i _ => (i < n)%nat
+  | _ => True
+  end.
+
+
 (* ---- invariants ---- *)
 (* every live variable satisfies the format rules: at least one limb, value fits the allocation *)
 Definition obj_ok (o : zobj) : Prop := 1 <= zalloc o /\ nl (zval o) <= zalloc o.
